@@ -47,7 +47,7 @@ def g_value(d, t, sz):
         if k == 0 or (j in (0, n - 1) and d.below(3) == 0):
             out.append(d.pick(b'"\\\n,'))
         elif k == 1:
-            x = d.rng(1, 255)
+            x = d.rng(1, 255) if d.below(2) else d.pick([1, 7, 8, 9, 11, 12, 27, 31, 127, 128, 255, 32, 32])
             out.append(x if x != 13 else 0x21)
         else:
             out.append(d.pick(b"abcXYZ 0189n_-"))
@@ -67,6 +67,10 @@ def gen(d, tier):
         sz = d.pick([1, 2, 4]) if t in (INT, UINT, HEX) else d.weighted([(5, d.rng(1, 8)), (2, d.rng(9, 24)), (1, d.rng(25, 64))])
         acc = RW if d.chance(4, 5) else RO
         vs.append(S.mk_var(t, sz, acc, g_value(d, t, sz)))
+    if n >= 2 and d.unlikely(1, 6):
+        # two strings: the first ends in a backslash, the second contains blanks and quotes
+        vs[0] = S.mk_var(STR, 8, RW, (d.pick([b"a\\", b"\\", b"x \\", b"\"\\"]) + bytes(8))[:8])
+        vs[-1] = S.mk_var(STR, 12, RW, (d.pick([b"two words", b" lead", b"a  b", b"q\" r"]) + bytes(12))[:12])
     if all(v["access"] == RO for v in vs):
         vs[d.below(len(vs))]["access"] = RW      # a command with nothing writable offers no WRITE at all (C08)
     name = d.pick([b"+RT", b"+V", b"X", b"+long_name"])
